@@ -39,6 +39,17 @@ func main() {
 			}
 		}
 	}
+	// messages around the 4096-byte read buffer of the queue's bufio.Reader: a message larger than
+	// it, and a backlog of several KiB inside one segment (a body that straddles a refill)
+	bulkDepth := 5
+	if rep.Thorough() {
+		bulkDepth = 6
+	}
+	for _, mb := range []int64{6000, 1 << 20} {
+		for _, c := range (dq.Config{MaxBytes: mb, SyncEvery: 2, Sizes: []int{1500, 5000}, Reopen: true, Tick: true, Depth: bulkDepth}).Split() {
+			scns = append(scns, dq.Scenario(c))
+		}
+	}
 	rep.Assume = []string{
 		"the filesystem is the in-memory model vos (POSIX semantics of the calls nsqd uses); one sequential client: after every operation the queue is taken to rest on the default schedule",
 		"histories are enumerated without state merging (every history is executed from an empty queue)",
